@@ -242,12 +242,33 @@ int main(int argc, char *argv[])
 	err = 0;
 
 	if (!strcmp(argv[0], "-")) {
-		char token[BUFSIZ];
-		while (fgets(token, sizeof(token), stdin) != NULL) {
+		size_t cap = BUFSIZ, len = 0;
+		char *token = malloc(cap);
+
+		/* One token per line, of any length */
+		while (token && fgets(token + len, cap - len, stdin) != NULL) {
+			len += strlen(token + len);
+			if (len && token[len - 1] != '\n' && !feof(stdin)) {
+				char *more = realloc(token, cap * 2);
+
+				if (more == NULL)
+					break;
+				token = more;
+				cap *= 2;
+				continue;
+			}
+
 			token[strcspn(token, "\n")] = '\0';
+			len = 0;
 
 			err += process_one(checker, alg, token, quiet);
 		}
+
+		/* Input ended right where the buffer did */
+		if (token && len)
+			err += process_one(checker, alg, token, quiet);
+
+		free(token);
 	} else {
 		for (oc = 0; oc < argc; oc++) {
 			const char *token = argv[oc];
